@@ -124,3 +124,14 @@ Fixpoint put_at (img : list N) (off : nat) (v : list N) : list N :=
   end.
 Definition zeros (n : nat) : list N := repeat 0%N n.
 Definition wr_arr (esz : nat) (l : list N) : list N := flat_map (le_encode esz) l.
+
+(* ---- statement-level events of the descriptors emitted by rs2v (GenArms) ---- *)
+Inductive ev :=
+| EvGateProto (bit : N) | EvGateVirtio (bit : N)
+| EvCheckSize | EvCheckFiles | EvCheckState
+| EvExtract (ty : string) | EvTakeSingle
+| EvHandler (name : string) | EvSock (name : string)
+| EvUpdateFlag | EvAck | EvReply | EvReplyPayload | EvNewReplyHdr
+| EvSendReq (fn : string) (code : N) | EvRecv (kind : string) | EvSend (name : string)
+| EvAssign (field : string) | EvHelper (name : string) | EvHelperEnd (name : string)
+| EvLocalErr | EvReturn.
